@@ -1,5 +1,6 @@
 import WR.Base.Sexp
 import WR.C06.Parser
+import WR.C06.Nth
 open WR WR.Sexp WR.C06
 
 namespace Driver.C06
@@ -74,6 +75,11 @@ def handle (req : Sexp) : Sexp :=
       | "onedecl" => some (ok [putCompound pre (parseOneDeclaration ts)])
       | "onevalue" => some (ok [putCompound pre (parseOneComponentValue ts)])
       | _ => none
+    | .list [.atom "nth", .str css] =>
+      let (_, ts) := toks 0 true css
+      match parseNth ts with
+      | some (a, b) => some (ok [ofInt a, ofInt b])
+      | none => some (ok [A "nil"])
     | .list [.atom "preprocess", .str css] => some (ok [S (preprocess css.toList)])
     | _ => none
   r.getD (Sexp.err "c06: unknown or malformed request")
